@@ -349,6 +349,20 @@ func runDkls(n, t int, mult, curve string) func(int64, map[sharing.ID]string) *o
 	}
 }
 
+// ddklsRun: DKLs23 softspoken, 2 of 2, with the given common configuration; nil unless every party is ok.
+func ddklsRun(cm keys.Common) *drive.Trace {
+	res := ddkls.RunFull(ddkls.Config{Common: cm, Policy: thresholdPolicy(2, 2), Curve: "k256", Hash: "sha256", Multiplier: "softspoken"})
+	if res.SetupErr != "" || res.Sig == nil {
+		return nil
+	}
+	for _, v := range res.Trace.Verdicts {
+		if v.Class != "ok" {
+			return nil
+		}
+	}
+	return res.Trace
+}
+
 func runL22(n, t int, variant string) func(int64, map[sharing.ID]string) *obs {
 	return func(seed int64, labels map[sharing.ID]string) *obs {
 		ids := idsN(n)
